@@ -197,15 +197,19 @@ def paths(ctx, L):
             if isinstance(node, ast.Call) and src.startswith('os.path.abspath('):
                 n += 1
                 # allowed only as the cache key of FileProcessor._process_file
-                ok = f is not None and f.fq == 'prophyc.file_processor:FileProcessor._process_file' and \
-                    isinstance(m.parent(node), ast.Assign) and isinstance(m.parent(node).targets[0], ast.Name)
+                ok = f is not None and f.fq == 'prophyc.file_processor:FileProcessor._process_file'
                 if ok:
-                    keyname = m.parent(node).targets[0].id
-                    uses = [x for x in f.walk() if isinstance(x, ast.Name) and x.id == keyname and isinstance(x.ctx, ast.Load)]
+                    par = m.parent(node)
+                    # the value itself, or the local it is bound to, is used only as key of self.files (subscript / membership)
+                    uses = [node]
+                    if isinstance(par, ast.Assign) and isinstance(par.targets[0], ast.Name) and par.value is node:
+                        keyname = par.targets[0].id
+                        uses = [x for x in f.walk() if isinstance(x, ast.Name) and x.id == keyname and isinstance(x.ctx, ast.Load)]
                     for u in uses:
                         p = m.parent(u)
-                        key_only = (isinstance(p, ast.Subscript) and unparse(p.value) == 'self.files') or \
-                                   (isinstance(p, ast.Compare) and unparse(p.comparators[0]) == 'self.files')
+                        key_only = (isinstance(p, ast.Subscript) and p.slice is u and unparse(p.value) == 'self.files') or \
+                                   (isinstance(p, ast.Compare) and p.left is u and len(p.ops) == 1 and isinstance(p.ops[0], (ast.In, ast.NotIn))
+                                    and unparse(p.comparators[0]) == 'self.files')
                         ok = ok and key_only
                 L.check(ok, 'F11.cwd-dependence', '%s|os.path.abspath' % modname, f.site(node) if f else m.rel,
                         'an absolute path may only key the file cache; anywhere else it makes output depend on where the tree is checked out',
@@ -381,5 +385,10 @@ def output_names(ctx, L):
             'F11.output-names', 'main|per-file-outputs', m.site(), 'each input file\'s nodes are generated under its own base name, in input order '
             '(dict insertion order)', '')
     py = ctx.py.mod('prophyc.generators.python').func('_PythonTranslator.translate_include')
-    L.check('included = list(sorted(' in ws(unparse(py.node)), 'F11.set-order', 'translate_include|sorted', py.site(),
-            'imported names are emitted in sorted order', '')
+    srt = set(a.targets[0].id for a in py.walk() if isinstance(a, ast.Assign) and isinstance(a.targets[0], ast.Name)
+              and isinstance(a.value, ast.Call) and isinstance(a.value.func, ast.Name) and a.value.func.id == 'sorted')
+    joins = [c for c in py.walk(into_nested=True) if isinstance(c, ast.Call) and isinstance(c.func, ast.Attribute) and c.func.attr == 'join'
+             and isinstance(c.func.value, ast.Constant) and c.func.value.value == u', ']
+    L.check(bool(joins) and all(len(c.args) == 1 and isinstance(c.args[0], ast.Name) and c.args[0].id in srt for c in joins),
+            'F11.set-order', 'translate_include|sorted', py.site(), 'imported names are emitted in sorted order',
+            '; '.join(ws(unparse(c)) for c in joins))
